@@ -14,7 +14,7 @@ theorem extract_pointQ (q i : String) (hq1 : '#' ∉ q.toList) (hq2 : ':' ∉ q.
   unfold Point.extract pointQ
   have : (q ++ "#" ++ i).toList = q.toList ++ '#' :: i.toList := by
     simp [String.toList_append]
-  rw [this, C01_point_roundtrip_obj q.toList i.toList hq1 hq2 hi]
+  rw [this, C01_point_roundtrip_obj q.toList i.toList hq1 hq2]
   simp [String.ofList_toList]
 
 theorem isListElement_pointQ (q i : String) (hq2 : ':' ∉ q.toList) (hne : q.toList ≠ []) (hq1 : '#' ∉ q.toList) :
